@@ -19,6 +19,7 @@ import IocProofs.Lemmas.SemAppOptions
 import IocProofs.Lemmas.SemLoaders
 import IocProofs.Lemmas.SemConfDefault
 import IocProofs.Lemmas.SemAppRun
+import IocProofs.Lemmas.SemTypeId
 namespace Ioc.C15
 open Ioc Ioc.Config
 
@@ -601,5 +602,10 @@ example : let globals : List Opt := [.addLoaders [lRaw 1 gDoc]]
 example : ((runProc [] [.newApp [], .settings [.setConfig (fileLoader 1 (.doc gDoc))], .newApp [], .newApp [.setLoaders []]]).map pSee).map
       (fun r => r.map (·.1)) = [some [0], some [1, 0], some [1]] := by decide
 end procExamples
+
+/-- FileLoader.Order, regenerated: 0 (with the Priority marker: file sources sort before the unordered ones) -/
+theorem C15_code_FileLoader_Order :
+    Go.run (Sem.tiPrims [] id (· ++ ·)) Progs.loader_File_Order [] () = some (.int 0, ()) :=
+  Sem.fileLoaderOrder_sem
 
 end Ioc.C15
